@@ -196,7 +196,9 @@ def run_one(it):
 
     s = simrt.run(main, seed=it["seed"], policy=it["policy"], switch_prob=0.15, max_vtime=1e5, wall_timeout=600,
                   line_funcs=[tc.TcpConnection._start_receiver, tc.TcpConnection.disconnect], line_cost=1e-3,
-                  pct_depth=3, pct_horizon=3000)
+                  pct_depth=3, pct_horizon=3000,
+                  wake_lag={"select": (("secsgem_hsmsProtocol_sendSelectReqThread",), 1.0, 0.05),
+                            "app": (("hostapp_", "secsgem_gemHandler", "secsgem_hsmsProtocol"), 0.3, 0.05)}.get(it.get("lag")))
     simsock.set_net(None)
     rec["outcome"] = s.outcome
     if s.errors:
@@ -226,7 +228,8 @@ def run(ctx: Ctx):
                         tid += 1
                         items.append({"id": tid, "active": active, "order": order, "cap": cap, "cycles": cycles, "latency": 0,
                                       "cut": rng.choice([None, 3, 7, 11, 14, 20]) if cycles != ["E", "H"] else None,
-                                      "seed": rng.randrange(1 << 30), "policy": rng.choice(["fifo", "random", "pct"])})
+                                      "seed": rng.randrange(1 << 30), "policy": rng.choice(["fifo", "random", "pct"]),
+                                      "lag": [None, "select", "app"][tid % 3]})
     recs = [r_ for batch in pmap(run_batch, chunks(items, 32)) for r_ in batch]
     for r_ in recs:
         if r_.get("errors") and "Machinery" in str(r_["errors"]):
@@ -246,7 +249,7 @@ def run(ctx: Ctx):
         if r_["id"] in (1, 8):
             ctx.sample({k: r_[k] for k in ("active", "order", "cap", "cycles", "policy", "comm")} | {"calls": r_["calls"][:5],
                                                                                                  "triggered": r_["triggered"][:2], "received": r_["received"][:2]})
-        base = {"check": "pair", "active": r_["active"], "order": r_["order"], "cap": r_["cap"], "cycles": r_["cycles"], "policy": r_["policy"], "cut": r_.get("cut"),
+        base = {"check": "pair", "lag": r_.get("lag"), "active": r_["active"], "order": r_["order"], "cap": r_["cap"], "cycles": r_["cycles"], "policy": r_["policy"], "cut": r_.get("cut"),
                 "sched_seed": r_["seed"]}
         if r_["outcome"] != "done" or r_.get("errors"):
             ctx.violation(dict(base, clause="session-did-not-finish", outcome=r_["outcome"], errors=r_.get("errors"), wedge=r_.get("wedge"),
@@ -258,7 +261,8 @@ def run(ctx: Ctx):
                                what=f"pair (active {r_['active']}, {r_['order']}, cap {r_['cap']}, cycles {r_['cycles']}, {r_['policy']}): {v['clause']}"
                                     + (f": {bad}" if bad else f" comm={r_['comm']}")))
     ctx.rule = ("sessions = {host active, equipment active} x {host first, equipment first} x receive buffer {64 KiB, 64 B} x "
-                "disable/enable cycles {none, host, equipment, both} x thread schedule; each session: 21 host calls compared with the "
+                "disable/enable cycles {none, host, equipment, both} x thread schedule (fifo / random / PCT, optionally with wake-up latency "
+                "of the select thread or of application / protocol helper threads); each session: 21 host calls compared with the "
                 "equipment's tables, 2 collection events, remote command; non-trivial = distinct configurations that completed a session")
     ctx.assumptions += ["link latency is zero in these runs (segmentation by 64-byte socket buffers); schedule space sampled",
                         f"bound for reaching communication: {BOUND} virtual seconds"]
